@@ -10,17 +10,28 @@ struct C02 : Harness {
         return rc::gen::exec([]() {
             Program p;
             p.push_back(mkop("new.mk").set("fill", *rc::gen::element(0, 0xA5, 0xFF)));
-            p.push_back(mkop("mk.set_key").set("s", 0).set("key", *gbytes(16)).set("len", 16).set("rounds", *irange(5, 8)).set("mode", *irange(0, 1)).set("ko", *goffset()));
+            Bytes key = *gbytes(16);
+            if (*chance(8)) for (int i = 0; i < 8; ++i) key[8 + i] = key[i];      // k1 == k0
+            p.push_back(mkop("mk.set_key").set("s", 0).set("key", key).set("len", 16).set("rounds", *irange(5, 8)).set("mode", *irange(0, 1)).set("ko", *goffset()));
+            // coinciding arguments (tweak == k0 / k1, block == tweak, block == k0): legal inputs an "equal, so skip" shortcut needs
+            auto related = [&key](const Bytes &other) {
+                int w = *irange(0, 2);
+                if (w == 0) return Bytes(key.begin(), key.begin() + 8);
+                if (w == 1) return Bytes(key.begin() + 8, key.end());
+                return other;
+            };
             int path = *irange(0, 3);   // 0 never set, 1 set_tweak, 2 set_tweak(NULL) after a non-zero one, 3 per-call only
             Bytes tw(8, 0);
             if (path == 1 || path == 2) {
                 tw = *gbytes(8);
+                if (*chance(8)) tw = related(tw);
                 p.push_back(mkop("mk.set_tweak").set("s", 0).set("tweak", tw).set("len", 8).set("to", *goffset()));
                 if (path == 2) { p.push_back(mkop("mk.set_tweak").set("s", 0).setnull("tweak").set("len", 8)); tw.assign(8, 0); }
             }
             int nb = *irange(1, 3);
             for (int i = 0; i < nb; ++i) {
                 Bytes in = *gbytes(8);
+                if (*chance(8)) in = related(tw);
                 Op c = mkop("mk.crypt"); c.set("s", 0).set("in", in).set("io", *goffset()).set("oo", *goffset());
                 p.push_back(c);
                 // the same block with the stored tweak passed explicitly must give the same result
